@@ -3,7 +3,7 @@
     an address-space limit), records the outcome class, a summary of the decoded
     value and the number of bytes allocated during the call, and writes one
     [CDec] per call; [check] re-runs the model of that decoder. *)
-From CSS Require Import Lib.Base Lib.Cases Model.Decoders.
+From CSS Require Import Lib.Base Lib.Cases Model.Decoders Model.DecodersExt.
 From CSS Require Model.EventLog.
 From Coq Require Import Uint63.
 
@@ -74,6 +74,7 @@ Definition D_LOCAL_CAPS     : Z := 16.
 Definition D_BYTES_RANGE    : Z := 17.
 Definition D_DECRYPT_FRAME  : Z := 18.
 Definition D_JSON_REGS      : Z := 19.
+Definition D_LOCAL_FILES    : Z := 20.  (* tpmdetection.local with a missing device / capability file: aux = [bit 0: device missing, bit 1: caps missing] *)
 
 Definition of_outcome {A} (o : outcome A) (f : A -> list Z) : rd (list Z) := fun s =>
   match o with
@@ -117,10 +118,26 @@ Definition model (d : Z) (aux i1 i2 : list Z) : res (list Z) :=
   else if d =? D_BYTES_RANGE then run (bytes_range (aux_at aux 0) (aux_at aux 1) (aux_at aux 2)) i1
   else if d =? D_DECRYPT_FRAME then run (decrypt_frame faithful (match i2 with [] => false | _ => true end) i1) i1
   else if d =? D_JSON_REGS then run (parse_registers (S (length i1)) i1 []) []
+  else if d =? D_LOCAL_FILES then run (local_files (Z.odd (aux_at aux 0)) (Z.odd (Z.shiftr (aux_at aux 0) 1)) i1) i1
   else RFuel.
 
 Inductive case : Type :=
-| CDec (d : Z) (aux i1 i2 : list Z) (o : dobs) (obs_alloc : Z).
+| CDec (d : Z) (aux i1 i2 : list Z) (o : dobs) (obs_alloc : Z)
+(** the PEM block loop of parsePrivateKey ([who] = 0, reached through
+    DecryptPrivKey) / ReadPubKey ([who] = 1) on a file of [n] bytes: [t] = the
+    calls of encoding/pem.Decode the harness made on the same bytes (length of
+    the argument, block type, length of the rest); [keys] = the positions whose
+    block the x509 parsers of that loop accept (third party, run by the harness
+    on block.Bytes); [code]: 0 = a key was returned, 1 = "failed to parse
+    private/public key" (the blocks ran out), 2 = another error (from the x509
+    parsers) *)
+| CPem (who n : Z) (t : pem_trace) (keys : list Z) (code : Z)
+(** tools.GetRegion after fiano: [found] = signature and descriptor parsed,
+    [valid], [base], [limit] = the region record; [obs] = (offset, size) returned *)
+| CRegion (found valid : bool) (base limit : Z) (obs : option (Z * Z))
+(** tools.CalcImageOffset: what the three layout probes returned, len(image),
+    the address; [ok], [v] = what the call returned (v = MaxUint64 beside an error) *)
+| CCalc (ifd cb : option (Z * Z)) (bios_ok : bool) (len addr : Z) (ok : bool) (v : Z).
 
 Definition GiB : Z := 1073741824.
 Definition MiB : Z := 1048576.
@@ -164,6 +181,27 @@ Definition check (c : case) : bool :=
   | CDec d aux i1 i2 o oa =>
       let r := model d aux i1 i2 in
       class_match d o r && alloc_match o oa (lenZ i1 + lenZ i2) r
+  | CPem who n t keys code =>
+      (* every observed pem.Decode call meets the contract, the loop leaves where the code left, and with
+         the block the code handed to the x509 parsers *)
+      trace_ok t && (0 <=? n) &&
+      match pem_run who t n with
+      | Err _ => code =? 1
+      | Ok _ => negb (code =? 1)
+      | _ => false
+      end && (pem_code who t keys n =? code)
+  | CRegion found valid base limit obs =>
+      match get_region found valid base limit, obs with
+      | Ok [o; s], Some (o', s') => (o =? o') && (s =? s')
+      | Err _, None => true
+      | _, _ => false
+      end
+  | CCalc ifd cb bios_ok len addr ok v =>
+      match calc_image_offset ifd cb bios_ok len addr with
+      | Ok x => ok && (x =? v)
+      | Err _ => negb ok && (v =? MaxUint64)
+      | _ => false
+      end
   end.
 
 Definition mismatches := mismatches_by check.
